@@ -103,6 +103,13 @@ func resolveVal(v ssa.Value) ssa.Value {
 		case *ssa.ChangeType:
 			v = x.X
 			continue
+		case *ssa.Parameter:
+			// a helper with exactly one call site: the argument there
+			if a := uniqueCallArg(x); a != nil {
+				v = a
+				continue
+			}
+			return v
 		case *ssa.UnOp:
 			if x.Op != token.MUL {
 				return v
@@ -758,7 +765,7 @@ func docField(v ssa.Value, path ...string) (string, bool) {
 		if !ok {
 			return "", false
 		}
-		if _, f := core.FieldName(fa); f != path[i] {
+		if docFieldKind(fa) != path[i] {
 			return "", false
 		}
 		cur = fa.X
@@ -817,7 +824,7 @@ func runTextAgree(p *core.Program, r *core.Report, fns []*ssa.Function) {
 					if mi, ok := root.(*ssa.MakeInterface); ok {
 						root = mi.X
 					}
-					if k, ok := docField(resolveVal(root), "parseTree", "Root"); ok {
+					if k, ok := docField(resolveVal(root), "tree", "Root"); ok {
 						addUse(fn, use{"tree searched by np.Find", k + " .code", p.InsPos(ins)})
 					} else {
 						addUse(fn, use{"tree searched by np.Find", "tree of " + originKey(root), p.InsPos(ins)})
@@ -835,7 +842,7 @@ func runTextAgree(p *core.Program, r *core.Report, fns []*ssa.Function) {
 				switch {
 				case n.Obj().Pkg().Path() == pkgComplete && n.Obj().Name() == "CodeBuffer" && f == "Content":
 					addUse(fn, use{"text given to the completer", textKey(x.Val), p.InsPos(ins)})
-				case n.Obj().Pkg().Path() == pkgLSP && n.Obj().Name() == "document" && f == "code":
+				case n.Obj().Pkg().Path() == pkgLSP && n.Obj().Name() == "document" && docFieldKind(fa) == "code":
 					addUse(fn, use{"text stored in the document record", textKey(x.Val), p.InsPos(ins)})
 				}
 			}
@@ -889,8 +896,13 @@ func runTextAgree(p *core.Program, r *core.Report, fns []*ssa.Function) {
 				return
 			}
 			fs := fieldStores(a)
-			tree := resolveVal(fs["parseTree"])
-			perr := resolveVal(fs["parseErr"])
+			// fields are recognised by their types (text: string, tree:
+			// parse.Tree, error: error), not by their names
+			for name, v := range fieldStoresWithAddr(a) {
+				fs[docFieldKind(name)] = v
+			}
+			tree := resolveVal(fs["tree"])
+			perr := resolveVal(fs["err"])
 			te, ok1 := tree.(*ssa.Extract)
 			ee, ok2 := perr.(*ssa.Extract)
 			if !ok1 || !ok2 || te.Tuple != ee.Tuple || te.Index != 0 || ee.Index != 1 {
@@ -1146,20 +1158,22 @@ func runDiagSource(p *core.Program, r *core.Report, fns []*ssa.Function) {
 				return
 			}
 			uri := fieldStores(pub)["URI"]
+			// the key of a store into the documents table that denotes the
+			// same value as the published URI (the publishing code may be a
+			// helper of the function that stores the document)
 			var key ssa.Value
 			for _, f2 := range fns {
-				if core.Outer(f2) != core.Outer(fn) {
-					continue
-				}
 				core.Instrs(f2, func(i2 ssa.Instruction) {
-					if mu, ok := i2.(*ssa.MapUpdate); ok {
+					if mu, ok := i2.(*ssa.MapUpdate); ok && uri != nil {
 						if mt, ok := mu.Map.Type().Underlying().(*types.Map); ok && core.IsNamed(mt.Elem(), pkgLSP, "document") {
-							key = mu.Key
+							if resolveVal(mu.Key) == resolveVal(uri) {
+								key = mu.Key
+							}
 						}
 					}
 				})
 			}
-			if uri == nil || key == nil || resolveVal(uri) != resolveVal(key) {
+			if uri == nil || key == nil {
 				r.Bad(rule, construct, p.InsPos(pub), "the URI of the published diagnostics is not the key under which the document was stored")
 				return
 			}
@@ -1183,4 +1197,109 @@ func rgSource(rg ssa.Value, fn *ssa.Function, text ssa.Value) ssa.Value {
 		return nil
 	}
 	return c
+}
+
+// docFieldKind names a field of the lsp document record by what it holds:
+// "code" (the string), "tree" (parse.Tree), "err" (error); other fields keep
+// their own names.
+func docFieldKind(fa *ssa.FieldAddr) string {
+	n, f := core.FieldName(fa)
+	if n == nil || n.Obj().Pkg() == nil || n.Obj().Pkg().Path() != pkgLSP || n.Obj().Name() != "document" {
+		return f
+	}
+	t := fa.Type().(*types.Pointer).Elem()
+	switch {
+	case isStringType(t):
+		return "code"
+	case core.IsNamed(t, pkgParse, "Tree"):
+		return "tree"
+	case t.String() == "error":
+		return "err"
+	}
+	return f
+}
+
+// fieldStoresWithAddr: like fieldStores, keyed by the field address.
+func fieldStoresWithAddr(a ssa.Value) map[*ssa.FieldAddr]ssa.Value {
+	out := map[*ssa.FieldAddr]ssa.Value{}
+	refs := a.Referrers()
+	if refs == nil {
+		return out
+	}
+	for _, ref := range *refs {
+		fa, ok := ref.(*ssa.FieldAddr)
+		if !ok || fa.X != a {
+			continue
+		}
+		for _, r2 := range *fa.Referrers() {
+			if st, ok := r2.(*ssa.Store); ok && st.Addr == ssa.Value(fa) {
+				out[fa] = st.Val
+			}
+		}
+	}
+	return out
+}
+
+// uniqueCallArg: prm belongs to an unexported function that is called (or
+// started with go / defer) at exactly one place in its package and never used
+// as a value; returns the argument passed there.
+func uniqueCallArg(prm *ssa.Parameter) ssa.Value {
+	fn := prm.Parent()
+	if fn == nil || fn.Pkg == nil || fn.Parent() != nil {
+		return nil
+	}
+	if obj := fn.Object(); obj == nil || obj.Exported() {
+		return nil
+	}
+	idx := -1
+	for i, q := range fn.Params {
+		if q == prm {
+			idx = i
+		}
+	}
+	var site ssa.CallInstruction
+	n := 0
+	escaped := false
+	scanned := map[*ssa.Function]bool{}
+	var scan func(f *ssa.Function)
+	scan = func(f *ssa.Function) {
+		if f == nil || f.Blocks == nil || scanned[f] {
+			return
+		}
+		scanned[f] = true
+		core.Instrs(f, func(ins ssa.Instruction) {
+			if c, ok := ins.(ssa.CallInstruction); ok && c.Common().StaticCallee() == fn {
+				site = c
+				n++
+				return
+			}
+			for _, op := range ins.Operands(nil) {
+				if *op == ssa.Value(fn) {
+					escaped = true
+				}
+			}
+		})
+		for _, a := range f.AnonFuncs {
+			scan(a)
+		}
+	}
+	for _, m := range fn.Pkg.Members {
+		switch x := m.(type) {
+		case *ssa.Function:
+			scan(x)
+		case *ssa.Type:
+			for _, t := range []types.Type{x.Type(), types.NewPointer(x.Type())} {
+				ms := fn.Prog.MethodSets.MethodSet(t)
+				for i := 0; i < ms.Len(); i++ {
+					if f := fn.Prog.MethodValue(ms.At(i)); f != nil && f.Pkg == fn.Pkg && f.Synthetic == "" {
+						scan(f)
+					}
+				}
+			}
+		}
+	}
+	if n != 1 || escaped || site == nil || idx < 0 || idx >= len(site.Common().Args) {
+		return nil
+	}
+	return site.Common().Args[idx]
 }
